@@ -27,6 +27,9 @@
 (*       files sideways (e8g8, e8c8, e1g1, e1c1), with and without rights  *)
 (*   F8  promotions next to like pieces : a piece of the promotion kind    *)
 (*       already exists and an enemy piece can capture it afterwards       *)
+(*   F9  castling with an en-passant square set : rights subsets x a pawn  *)
+(*       that has just been pushed two squares (with or without a pawn     *)
+(*       beside it) x one enemy piece anywhere                             *)
 (* Both colours are covered by emitting Mirror(p) as well (its legal set   *)
 (* is computed by Legal on the mirrored position, not by symmetry).        *)
 (***************************************************************************)
@@ -138,8 +141,19 @@ F8Set(x) ==
   {MkPos({<<wk, 6>>, <<62, 12>>, <<MkSq(pf, 6), 1>>, <<x, k>>, <<y, bp>>}, 0, 0, -1) :
       wk \in {4, 16}, pf \in {0, 3, 6}, k \in {2, 3, 4, 5}, bp \in {8, 9, 10, 11}, y \in (IF Full THEN Sq ELSE {9, 18, 27, 36, 45, 11, 25, 33, 52, 3})}
 
+\* ---- F9: castling while an en-passant square is set.  White to move with a subset of its rights; Black has just pushed a pawn two
+\* squares (en-passant square behind it), with or without a white pawn beside it that could capture; one black piece on the seed square
+\* (attacker / blocker of the castling path).  Castling is made and unmade with the en-passant state to be restored (C03), and
+\* played with the en-passant state to be cleared (C02).
+F9Set(x) ==
+  {MkPos({<<4, 6>>, <<0, 4>>, <<7, 4>>, <<60, 12>>, <<MkSq(pf, 4), 7>>, <<x, bp>>}
+           \cup (IF wp /\ pf + side \in 0..7 THEN {<<MkSq(pf + side, 4), 1>>} ELSE {}),
+         0, rights, MkSq(pf, 5)) :
+      pf \in (IF Full THEN 0..7 ELSE {0, 3, 4, 7}), side \in {-1, 1}, wp \in BOOLEAN, bp \in {8, 10}, rights \in {1, 2, 3}}
+
 Candidates(x) == CASE Fam = "F1" -> {p \in F1Set(x) : F1Ok(x, p)}
                    [] Fam = "F8" -> F8Set(x)
+                   [] Fam = "F9" -> F9Set(x)
                    [] Fam = "F7" -> F7Set(x)
                    [] Fam = "F5" -> F5Set(x)
                    [] Fam = "F2" -> {p \in F2Set(x) : F2Ok(p)}
